@@ -44,7 +44,7 @@ __CPROVER_assigns(g_entry_next, g_exc)
 __CPROVER_ensures(!g_exc ==> g_entry_next == nr_regions)
 ;
 void visit_wrong_mode(fsm_t* sm)          /* any traversal other than visit<active_non_recursive>: recursive (also the default overload visit(v)) or all-states */
-__CPROVER_requires(0)                                                            /*@ob C02,C03,C07.a-machine-enters-and-exits-only-its-own-active-substates-nested-machines-do-theirs-themselves */
+__CPROVER_requires(0)                                                            /*@ob C02,C03,C07,C08.a-machine-enters-and-exits-only-its-own-active-substates-nested-machines-do-theirs-themselves */
 __CPROVER_assigns()
 ;
 void hist_on_entry_visit(hist11_t* self, fsm_t* sm, event_t event)
